@@ -65,16 +65,16 @@ theorem vw_nil_loaded_cur {s : St} {p : Nat} (h : Vw s [] p) (hl : s.l.loaded = 
 /-! ## tokens -/
 
 /-- a byte on which `skipSpaces` stops successfully -/
-def Tok (c : Byte) : Prop := c ≠ 0 ∧ isWs c = false ∧ c ≠ 0x2F
+def Tok_rt (c : Byte) : Prop := c ≠ 0 ∧ isWs c = false ∧ c ≠ 0x2F
 
-theorem skipSpaces_cur {cfg : Cfg} {n : Nat} {s s1 : St} {c : Byte} (hc : cur s = (c, s1)) (ht : Tok c) :
+theorem skipSpaces_cur {cfg : Cfg} {n : Nat} {s s1 : St} {c : Byte} (hc : cur s = (c, s1)) (ht : Tok_rt c) :
     skipSpaces cfg (n + 1) s = (.ok, { s1 with found := true }) := by
   have e0 : (c == 0) = false := by simpa using ht.1
   have e1 : (c == 0x2F) = false := by simpa using ht.2.2
   simp only [skipSpaces, hc, e0, ht.2.1, e1, Bool.and_false, Bool.false_eq_true, ↓reduceIte]
 
 /-- `skipSpaces` in front of a token: the token byte ends up latched -/
-theorem vw_tok {cfg : Cfg} {n : Nat} {s : St} {c : Byte} {r : List Byte} {p : Nat} (h : Vw s (c :: r) p) (ht : Tok c) :
+theorem vw_tok {cfg : Cfg} {n : Nat} {s : St} {c : Byte} {r : List Byte} {p : Nat} (h : Vw s (c :: r) p) (ht : Tok_rt c) :
     ∃ s1, skipSpaces cfg (n + 1) s = (.ok, s1) ∧ Ld s1 c r p := by
   obtain ⟨s1, hc, hl⟩ := vw_cur_cons h
   exact ⟨_, skipSpaces_cur hc ht, hl.found⟩
@@ -109,7 +109,7 @@ theorem pv_obj {cfg : Cfg} {f L : Nat} {s s1 s2 : St} {d : Byte}
   have e : (d == 0x7D) = false := by simpa using hd
   simp only [parseVariant, h1, c1, h2, c2, k, e, beq_self_eq_true, Bool.false_eq_true, ↓reduceIte]
 
-theorem pv_str {cfg : Cfg} {f L : Nat} {s s1 : St}
+theorem pv_str_rt {cfg : Cfg} {f L : Nat} {s s1 : St}
     (h1 : skipSpaces cfg (f + 1) s = (.ok, s1)) (c1 : cur s1 = (0x22, s1)) :
     parseVariant cfg (f + 1) L s =
       (match parseQuoted cfg 0x22 (f + 1) [] 0 (mv s1) with
@@ -120,7 +120,7 @@ theorem pv_str {cfg : Cfg} {f L : Nat} {s s1 : St}
   simp only [parseVariant, h1, c1, k3, k4, beq_self_eq_true, Bool.true_or, Bool.false_eq_true, ↓reduceIte]
   rfl
 
-theorem pv_true {cfg : Cfg} {f L : Nat} {s s1 : St}
+theorem pv_true_rt {cfg : Cfg} {f L : Nat} {s s1 : St}
     (h1 : skipSpaces cfg (f + 1) s = (.ok, s1)) (c1 : cur s1 = (0x74, s1)) :
     parseVariant cfg (f + 1) L s =
       (match skipKeyword "true".toUTF8.toList s1 with | (e, s) => (e, .bool true, s)) := by
@@ -129,7 +129,7 @@ theorem pv_true {cfg : Cfg} {f L : Nat} {s s1 : St}
   have k3 : ((0x74 : Byte) == 0x22 || (0x74 : Byte) == 0x27) = false := by decide
   simp only [parseVariant, h1, c1, k1, k2, k3, beq_self_eq_true, Bool.false_eq_true, ↓reduceIte]
 
-theorem pv_false {cfg : Cfg} {f L : Nat} {s s1 : St}
+theorem pv_false_rt {cfg : Cfg} {f L : Nat} {s s1 : St}
     (h1 : skipSpaces cfg (f + 1) s = (.ok, s1)) (c1 : cur s1 = (0x66, s1)) :
     parseVariant cfg (f + 1) L s =
       (match skipKeyword "false".toUTF8.toList s1 with | (e, s) => (e, .bool false, s)) := by
@@ -139,7 +139,7 @@ theorem pv_false {cfg : Cfg} {f L : Nat} {s s1 : St}
   have k4 : ((0x66 : Byte) == 0x74) = false := by decide
   simp only [parseVariant, h1, c1, k1, k2, k3, k4, beq_self_eq_true, Bool.false_eq_true, ↓reduceIte]
 
-theorem pv_null {cfg : Cfg} {f L : Nat} {s s1 : St}
+theorem pv_null_rt {cfg : Cfg} {f L : Nat} {s s1 : St}
     (h1 : skipSpaces cfg (f + 1) s = (.ok, s1)) (c1 : cur s1 = (0x6E, s1)) :
     parseVariant cfg (f + 1) L s =
       (match skipKeyword "null".toUTF8.toList s1 with | (e, s) => (e, .null, s)) := by
@@ -151,10 +151,10 @@ theorem pv_null {cfg : Cfg} {f L : Nat} {s s1 : St}
   simp only [parseVariant, h1, c1, k1, k2, k3, k4, k5, beq_self_eq_true, Bool.false_eq_true, ↓reduceIte]
 
 /-- a byte that can start the text of an integer: a digit or `-` -/
-def NumStart (c : Byte) : Prop := isDigit c = true ∨ c = 0x2D
+def NumStart_rt (c : Byte) : Prop := isDigit c = true ∨ c = 0x2D
 
-theorem numStart_facts {c : Byte} (h : NumStart c) :
-    Tok c ∧ (c == 0x5B) = false ∧ (c == 0x7B) = false ∧ (c == 0x22 || c == 0x27) = false ∧ (c == 0x74) = false ∧
+theorem numStart_facts_rt {c : Byte} (h : NumStart_rt c) :
+    Tok_rt c ∧ (c == 0x5B) = false ∧ (c == 0x7B) = false ∧ (c == 0x22 || c == 0x27) = false ∧ (c == 0x74) = false ∧
       (c == 0x66) = false ∧ (c == 0x6E) = false ∧ c ≠ 0x5D ∧ c ≠ 0x7D := by
   have key : ∀ c : UInt8, (!(isDigit c || c == 0x2D) ||
       (c != 0 && !isWs c && c != 0x2F && !(c == 0x5B) && !(c == 0x7B) && !(c == 0x22 || c == 0x27) && !(c == 0x74) &&
@@ -169,10 +169,10 @@ theorem numStart_facts {c : Byte} (h : NumStart c) :
   obtain ⟨⟨⟨⟨⟨⟨⟨⟨⟨⟨a, b⟩, c'⟩, d⟩, e⟩, f⟩, g⟩, h'⟩, i⟩, j⟩, k⟩ := hk
   exact ⟨⟨a, b, c'⟩, d, e, f, g, h', i, j, k⟩
 
-theorem pv_num {cfg : Cfg} {f L : Nat} {s s1 : St} {c : Byte}
-    (h1 : skipSpaces cfg (f + 1) s = (.ok, s1)) (c1 : cur s1 = (c, s1)) (hc : NumStart c) :
+theorem pv_num_rt {cfg : Cfg} {f L : Nat} {s s1 : St} {c : Byte}
+    (h1 : skipSpaces cfg (f + 1) s = (.ok, s1)) (c1 : cur s1 = (c, s1)) (hc : NumStart_rt c) :
     parseVariant cfg (f + 1) L s = parseNumeric cfg s1 := by
-  obtain ⟨_, k1, k2, k3, k4, k5, k6, _, _⟩ := numStart_facts hc
+  obtain ⟨_, k1, k2, k3, k4, k5, k6, _, _⟩ := numStart_facts_rt hc
   simp only [parseVariant, h1, c1, k1, k2, k3, k4, k5, k6, Bool.false_eq_true, ↓reduceIte]
 
 theorem pe_last {cfg : Cfg} {f L : Nat} {s s1 s2 : St} {v : Val} {acc : List Val}
@@ -214,12 +214,12 @@ theorem pm_more {cfg : Cfg} {f L : Nat} {s s1 q1 q2 q3 q4 q5 : St} {key : List B
 
 /-! ## scalars -/
 
-theorem kw_true : "true".toUTF8.toList = [0x74, 0x72, 0x75, 0x65] := by decide +kernel
-theorem kw_false : "false".toUTF8.toList = [0x66, 0x61, 0x6C, 0x73, 0x65] := by decide +kernel
-theorem kw_null : "null".toUTF8.toList = [0x6E, 0x75, 0x6C, 0x6C] := by decide +kernel
+theorem kw_true_rt : "true".toUTF8.toList = [0x74, 0x72, 0x75, 0x65] := by decide +kernel
+theorem kw_false_rt : "false".toUTF8.toList = [0x66, 0x61, 0x6C, 0x73, 0x65] := by decide +kernel
+theorem kw_null_rt : "null".toUTF8.toList = [0x6E, 0x75, 0x6C, 0x6C] := by decide +kernel
 
 /-- a keyword that is present is skipped exactly -/
-theorem skipKeyword_ok : ∀ (ks : List Byte) (s : St) (rest : List Byte) (p : Nat), (∀ k ∈ ks, k ≠ 0) →
+theorem skipKeyword_ok_rt : ∀ (ks : List Byte) (s : St) (rest : List Byte) (p : Nat), (∀ k ∈ ks, k ≠ 0) →
     Vw s (ks ++ rest) p → ∃ s', skipKeyword ks s = (.ok, s') ∧ Vw s' rest (p + ks.length) := by
   intro ks
   induction ks with
@@ -236,10 +236,10 @@ theorem skipKeyword_ok : ∀ (ks : List Byte) (s : St) (rest : List Byte) (p : N
       rw [← this]; exact hv
 
 /-- what follows a number must not look like a number byte (inside a container it is `,` `]` `}`, at top level the end) -/
-def Delim (cfg : Cfg) (rest : List Byte) : Prop := inNumber cfg (rest.headD 0) = false
+def Delim_rt (cfg : Cfg) (rest : List Byte) : Prop := inNumber cfg (rest.headD 0) = false
 
-theorem delim_nil (cfg : Cfg) : Delim cfg [] := by
-  simp only [Delim, List.headD_nil, inNumber]
+theorem delim_nil (cfg : Cfg) : Delim_rt cfg [] := by
+  simp only [Delim_rt, List.headD_nil, inNumber]
   cases cfg.nan <;> cases cfg.inf <;> decide
 
 theorem inNumber_closer (cfg : Cfg) :
@@ -247,9 +247,9 @@ theorem inNumber_closer (cfg : Cfg) :
   simp only [inNumber]
   cases cfg.nan <;> cases cfg.inf <;> decide
 
-theorem delim_of_closer (cfg : Cfg) {c : Byte} (h : c = 0x2C ∨ c = 0x5D ∨ c = 0x7D) (r : List Byte) : Delim cfg (c :: r) := by
+theorem delim_of_closer (cfg : Cfg) {c : Byte} (h : c = 0x2C ∨ c = 0x5D ∨ c = 0x7D) (r : List Byte) : Delim_rt cfg (c :: r) := by
   obtain ⟨a, b, d⟩ := inNumber_closer cfg
-  simp only [Delim, List.headD_cons]
+  simp only [Delim_rt, List.headD_cons]
   rcases h with h | h | h <;> subst h <;> assumption
 
 theorem vw_cur_headD {s : St} {u : List Byte} {p : Nat} (h : Vw s u p) :
@@ -261,7 +261,7 @@ theorem vw_cur_headD {s : St} {u : List Byte} {p : Nat} (h : Vw s u p) :
 /-- `scanNumber` takes exactly the number bytes when a delimiter follows and the buffer is large enough;
     the look-ahead stays latched -/
 theorem scanNumber_exact (cfg : Cfg) : ∀ (ds : List Byte) (n : Nat) (acc : List Byte) (s : St) (rest : List Byte) (p : Nat),
-    (∀ c ∈ ds, inNumber cfg c = true) → ds.length ≤ n → Delim cfg rest → Vw s (ds ++ rest) p →
+    (∀ c ∈ ds, inNumber cfg c = true) → ds.length ≤ n → Delim_rt cfg rest → Vw s (ds ++ rest) p →
     ∃ s', scanNumber cfg n acc s = (acc.reverse ++ ds, s') ∧ Vw s' rest (p + ds.length) ∧ s'.l.loaded = true := by
   intro ds
   induction ds with
@@ -313,7 +313,7 @@ theorem inNumber_minus (cfg : Cfg) : inNumber cfg 0x2D = true := by
 
 /-- `skipSpaces` in front of a token, with the text kept abstract -/
 theorem vw_tok' {cfg : Cfg} {n : Nat} {s : St} {u : List Byte} {c : Byte} {r : List Byte} {p : Nat}
-    (h : Vw s u p) (hu : u = c :: r) (ht : Tok c) :
+    (h : Vw s u p) (hu : u = c :: r) (ht : Tok_rt c) :
     ∃ s1, skipSpaces cfg (n + 1) s = (.ok, s1) ∧ cur s1 = (c, s1) ∧ Vw s1 u p ∧ Un (mv s1) r (p + 1) := by
   subst hu
   obtain ⟨s1, h1, h2⟩ := vw_tok (cfg := cfg) (n := n) h ht
@@ -475,7 +475,7 @@ theorem digits_inNumber (cfg : Cfg) (n : Nat) : ∀ x ∈ JS.digits n, inNumber 
 /-- the text of an in-range integer: starts like a number, consists of number bytes, fits the 63-byte buffer,
     and is parsed back to the normal form of the value -/
 theorem int_text (cfg : Cfg) (n : Num) (hg : ScalarOk cfg (.num n)) :
-    ∃ c t, JS.printNum cfg n = c :: t ∧ NumStart c ∧ (∀ x ∈ JS.printNum cfg n, inNumber cfg x = true) ∧
+    ∃ c t, JS.printNum cfg n = c :: t ∧ NumStart_rt c ∧ (∀ x ∈ JS.printNum cfg n, inNumber cfg x = true) ∧
       (JS.printNum cfg n).length ≤ 63 ∧
       ((∃ m, parseNumber cfg (JS.printNum cfg n) = .uint m ∧ normJ (.num n) = .num (.uint m)) ∨
        (∃ i, parseNumber cfg (JS.printNum cfg n) = .sint i ∧ normJ (.num n) = .num (.sint i))) := by
@@ -517,15 +517,15 @@ theorem int_text (cfg : Cfg) (n : Num) (hg : ScalarOk cfg (.num n)) :
 
 /-- an in-range integer followed by a delimiter is read back; the look-ahead byte stays latched -/
 theorem pv_number (cfg : Cfg) {f L : Nat} (n : Num) (hg : ScalarOk cfg (.num n)) (s : St) (rest : List Byte) (p : Nat)
-    (hd : Delim cfg rest) (h : Vw s (JS.printNum cfg n ++ rest) p) :
+    (hd : Delim_rt cfg rest) (h : Vw s (JS.printNum cfg n ++ rest) p) :
     ∃ s', parseVariant cfg (f + 1) L s = (.ok, normJ (.num n), s') ∧
       Vw s' rest (p + (JS.printNum cfg n).length) ∧ s'.l.loaded = true := by
   obtain ⟨c, t, e, hc, hin, hlen, hres⟩ := int_text cfg n hg
-  obtain ⟨s1, h1, c1, v1, _⟩ := vw_tok' (cfg := cfg) (n := f) h (by rw [e]; rfl) (numStart_facts hc).1
+  obtain ⟨s1, h1, c1, v1, _⟩ := vw_tok' (cfg := cfg) (n := f) h (by rw [e]; rfl) (numStart_facts_rt hc).1
   obtain ⟨s', hscan, hv, hl⟩ := scanNumber_exact cfg (JS.printNum cfg n) (Gen.number_buffer - 1) [] s1 rest p hin
     (by show _ ≤ 63; exact hlen) hd v1
   refine ⟨s', ?_, hv, hl⟩
-  rw [pv_num h1 c1 hc]
+  rw [pv_num_rt h1 c1 hc]
   simp only [List.reverse_nil, List.nil_append] at hscan
   rcases hres with ⟨m, hp, hn⟩ | ⟨i, hp, hn⟩
   · simp only [parseNumeric, hscan, hp, hn]
@@ -552,7 +552,7 @@ def numBack (cfg : Cfg) (n : Num) : Val :=
 
 /-- a first byte that sends `parseVariant` to `parseNumeric` -/
 def NumStartG (c : Byte) : Prop :=
-  Tok c ∧ (c == 0x5B) = false ∧ (c == 0x7B) = false ∧ (c == 0x22 || c == 0x27) = false ∧ (c == 0x74) = false ∧
+  Tok_rt c ∧ (c == 0x5B) = false ∧ (c == 0x7B) = false ∧ (c == 0x22 || c == 0x27) = false ∧ (c == 0x74) = false ∧
     (c == 0x66) = false ∧ (c == 0x6E) = false ∧ c ≠ 0x5D ∧ c ≠ 0x7D
 
 /-- the text of the node can be read back: it is `null`, or it starts like a number, consists of number bytes, fits the
@@ -573,7 +573,7 @@ theorem pv_numG {cfg : Cfg} {f L : Nat} {s s1 : St} {c : Byte}
 theorem pv_numberG (cfg : Cfg) {f L : Nat} (T : List Byte) (hst : ∃ c t, T = c :: t ∧ NumStartG c)
     (hin : ∀ x ∈ T, inNumber cfg x = true) (hlen : T.length ≤ 63) (hni : parseNumber cfg T ≠ .invalid)
     (hnf : parseNumber cfg T ≠ .fault) (s : St) (rest : List Byte) (p : Nat)
-    (hd : Delim cfg rest) (h : Vw s (T ++ rest) p) :
+    (hd : Delim_rt cfg rest) (h : Vw s (T ++ rest) p) :
     ∃ s', parseVariant cfg (f + 1) L s = (.ok, numValue cfg T, s') ∧ Vw s' rest (p + T.length) ∧ s'.l.loaded = true := by
   obtain ⟨c, t, e, hc⟩ := hst
   obtain ⟨s1, h1, c1, v1, _⟩ := vw_tok' (cfg := cfg) (n := f) h (by rw [e]; rfl) hc.1
@@ -624,7 +624,7 @@ theorem goodG_of (cfg : Cfg) (v : Val) (h2 : RawFree v) (h3 : NumsReadable cfg v
   have a := AllV_and v (AllV_and v h2 h3) h4
   exact AllV_mono (fun v h => ⟨h.1.1, h.1.2, h.2⟩) (fun k h => h.2) v a
 
-theorem numStartG_of {c : Byte} (h : NumStart c) : NumStartG c := numStart_facts h
+theorem numStartG_of {c : Byte} (h : NumStart_rt c) : NumStartG c := numStart_facts_rt h
 
 /-- an in-range integer node is readable, and is read back as its normal form -/
 theorem int_readable (cfg : Cfg) (n : Num) (hg : ScalarOk cfg (.num n)) :
@@ -677,18 +677,18 @@ end
 
 /-! ## the first byte of a serialized value -/
 
-theorem tok_of {c : Byte} (h0 : c ≠ 0) (hw : isWs c = false) (h2 : c ≠ 0x2F) : Tok c := ⟨h0, hw, h2⟩
+theorem tok_of {c : Byte} (h0 : c ≠ 0) (hw : isWs c = false) (h2 : c ≠ 0x2F) : Tok_rt c := ⟨h0, hw, h2⟩
 
 theorem compact_start (cfg : Cfg) (v : Val) (hg : GoodG cfg v) :
-    ∃ c t, compact cfg v = c :: t ∧ Tok c ∧ c ≠ 0x5D ∧ c ≠ 0x7D := by
+    ∃ c t, compact cfg v = c :: t ∧ Tok_rt c ∧ c ≠ 0x5D ∧ c ≠ 0x7D := by
   cases v with
   | arr xs => exact ⟨0x5B, _, by simp only [compact]; rfl, tok_of (by decide) (by decide) (by decide), by decide, by decide⟩
   | obj ms => exact ⟨0x7B, _, by simp only [compact]; rfl, tok_of (by decide) (by decide) (by decide), by decide, by decide⟩
-  | null => exact ⟨0x6E, _, by simp only [compact, kw_null]; rfl, tok_of (by decide) (by decide) (by decide), by decide, by decide⟩
+  | null => exact ⟨0x6E, _, by simp only [compact, kw_null_rt]; rfl, tok_of (by decide) (by decide) (by decide), by decide, by decide⟩
   | bool b =>
     cases b
-    · exact ⟨0x66, _, by simp only [compact, kw_false]; rfl, tok_of (by decide) (by decide) (by decide), by decide, by decide⟩
-    · exact ⟨0x74, _, by simp only [compact, kw_true]; rfl, tok_of (by decide) (by decide) (by decide), by decide, by decide⟩
+    · exact ⟨0x66, _, by simp only [compact, kw_false_rt]; rfl, tok_of (by decide) (by decide) (by decide), by decide, by decide⟩
+    · exact ⟨0x74, _, by simp only [compact, kw_true_rt]; rfl, tok_of (by decide) (by decide) (by decide), by decide, by decide⟩
   | num n =>
     have hn : ScalarOkG cfg (.num n) := by simpa only [GoodG, AllV] using hg
     rcases hn.2.1 with e | ⟨⟨c, t, e, hc⟩, _⟩
@@ -702,7 +702,7 @@ theorem compact_start (cfg : Cfg) (v : Val) (hg : GoodG cfg v) :
     exact absurd this.1 (by simp [RawFreeS])
 
 theorem compactElems_start (cfg : Cfg) (x : Val) (xs : List Val) (hg : GoodG cfg x) :
-    ∃ c t, compactElems cfg (x :: xs) = c :: t ∧ Tok c ∧ c ≠ 0x5D := by
+    ∃ c t, compactElems cfg (x :: xs) = c :: t ∧ Tok_rt c ∧ c ≠ 0x5D := by
   obtain ⟨c, t, e, ht, h5, _⟩ := compact_start cfg x hg
   cases xs with
   | nil => exact ⟨c, t, by simp only [compactElems, e], ht, h5⟩
@@ -720,7 +720,7 @@ theorem compactMembers_start (cfg : Cfg) (k : List Byte) (v : Val) (ms : List (L
 /-- values: from any reader state in front of `compact v ++ rest` -/
 def PV (cfg : Cfg) (f : Nat) : Prop :=
   ∀ (L : Nat) (v : Val) (rest : List Byte) (s : St) (p : Nat), GoodG cfg v → depth v ≤ L → (compact cfg v).length < f →
-    Delim cfg rest → Vw s (compact cfg v ++ rest) p →
+    Delim_rt cfg rest → Vw s (compact cfg v ++ rest) p →
     ∃ s', parseVariant cfg f L s = (.ok, readBack cfg v, s') ∧ Vw s' rest (p + (compact cfg v).length)
 
 /-- array elements up to and including the closing bracket, with the accumulator of `parseElems` -/
@@ -741,12 +741,12 @@ def PM (cfg : Cfg) (f : Nat) : Prop :=
       Vw s' rest (p + (compactMembers cfg ((k, v) :: ms)).length + 1)
 
 theorem kw_case {cfg : Cfg} {f L : Nat} {s : St} {rest : List Byte} {p : Nat} (c : Byte) (ks : List Byte) (val : Val)
-    (ht : Tok c) (hks : ∀ k ∈ c :: ks, k ≠ 0) (h : Vw s ((c :: ks) ++ rest) p)
+    (ht : Tok_rt c) (hks : ∀ k ∈ c :: ks, k ≠ 0) (h : Vw s ((c :: ks) ++ rest) p)
     (hpv : ∀ s1, skipSpaces cfg (f + 1) s = (.ok, s1) → cur s1 = (c, s1) →
       parseVariant cfg (f + 1) L s = (match skipKeyword (c :: ks) s1 with | (e, s) => (e, val, s))) :
     ∃ s', parseVariant cfg (f + 1) L s = (.ok, val, s') ∧ Vw s' rest (p + (c :: ks).length) := by
   obtain ⟨s1, h1, c1, v1, _⟩ := vw_tok' (cfg := cfg) (n := f) h rfl ht
-  obtain ⟨s', he, hv⟩ := skipKeyword_ok (c :: ks) s1 rest p hks v1
+  obtain ⟨s', he, hv⟩ := skipKeyword_ok_rt (c :: ks) s1 rest p hks v1
   exact ⟨s', by rw [hpv s1 h1 c1, he], hv⟩
 
 theorem step_V (cfg : Cfg) (hcfg : cfg.decodeUnicode = true) (f : Nat) (ihE : PE cfg f) (ihM : PM cfg f) :
@@ -754,20 +754,20 @@ theorem step_V (cfg : Cfg) (hcfg : cfg.decodeUnicode = true) (f : Nat) (ihE : PE
   intro L v rest s p hg hdep hlen hdl h
   cases v with
   | null =>
-    simp only [compact, kw_null] at h hlen ⊢
+    simp only [compact, kw_null_rt] at h hlen ⊢
     simp only [readBack]
     exact kw_case 0x6E [0x75, 0x6C, 0x6C] .null (tok_of (by decide) (by decide) (by decide)) (by decide) h
-      (fun s1 h1 c1 => by rw [pv_null h1 c1, kw_null])
+      (fun s1 h1 c1 => by rw [pv_null_rt h1 c1, kw_null_rt])
   | bool b =>
     cases b
-    · simp only [compact, kw_false] at h hlen ⊢
+    · simp only [compact, kw_false_rt] at h hlen ⊢
       simp only [readBack]
       exact kw_case 0x66 [0x61, 0x6C, 0x73, 0x65] (.bool false) (tok_of (by decide) (by decide) (by decide)) (by decide) h
-        (fun s1 h1 c1 => by rw [pv_false h1 c1, kw_false])
-    · simp only [compact, kw_true] at h hlen ⊢
+        (fun s1 h1 c1 => by rw [pv_false_rt h1 c1, kw_false_rt])
+    · simp only [compact, kw_true_rt] at h hlen ⊢
       simp only [readBack]
       exact kw_case 0x74 [0x72, 0x75, 0x65] (.bool true) (tok_of (by decide) (by decide) (by decide)) (by decide) h
-        (fun s1 h1 c1 => by rw [pv_true h1 c1, kw_true])
+        (fun s1 h1 c1 => by rw [pv_true_rt h1 c1, kw_true_rt])
   | num n =>
     simp only [compact] at h hlen ⊢
     have hn : ScalarOkG cfg (.num n) := by simpa only [GoodG, AllV] using hg
@@ -776,7 +776,7 @@ theorem step_V (cfg : Cfg) (hcfg : cfg.decodeUnicode = true) (f : Nat) (ihE : PE
       rw [e] at h ⊢
       rw [hb]
       exact kw_case 0x6E [0x75, 0x6C, 0x6C] .null (tok_of (by decide) (by decide) (by decide)) (by decide) h
-        (fun s1 h1 c1 => by rw [pv_null h1 c1, kw_null])
+        (fun s1 h1 c1 => by rw [pv_null_rt h1 c1, kw_null_rt])
     · have hnn : JS.printNum cfg n ≠ nullText := by
         intro e
         obtain ⟨c, t, e2, hc⟩ := hst
@@ -805,7 +805,7 @@ theorem step_V (cfg : Cfg) (hcfg : cfg.decodeUnicode = true) (f : Nat) (ihE : PE
     obtain ⟨q', hq', he⟩ := C17.escape_inverse_gen hcfg str (f + 1) [] 0 (mv s1) rest (p + 1) _ (by omega)
       (by simpa using hsl) u1.at
     refine ⟨q', ?_, ?_⟩
-    · rw [pv_str h1 c1, he]; simp [readBack]
+    · rw [pv_str_rt h1 c1, he]; simp [readBack]
     · rw [hcl]
       have : p + 1 + (str.flatMap writeChar).length + 1 = p + ((str.flatMap writeChar).length + 2) := by omega
       rw [← this]; exact hq'.un.vw
@@ -900,7 +900,7 @@ theorem step_M (cfg : Cfg) (hcfg : cfg.decodeUnicode = true) (f : Nat) (ihV : PV
   obtain ⟨hk, hgx, hgr⟩ := hg
   have hkl := length_le_escaped k
   -- the common beginning: the key, the colon, the value
-  have common : ∀ (tail : List Byte), Delim cfg tail → (compact cfg x).length < f →
+  have common : ∀ (tail : List Byte), Delim_rt cfg tail → (compact cfg x).length < f →
       (k.flatMap writeChar).length + 2 < f + 1 →
       Vw s (0x22 :: (k.flatMap writeChar ++ 0x22 :: 0x3A :: (compact cfg x ++ tail))) p →
       ∃ s1 q1 q2 q3, cur s = (0x22, s1) ∧ parseQuoted cfg 0x22 (f + 1) [] 0 (mv s1) = (.ok, k, q1) ∧
